@@ -403,7 +403,69 @@ def run(chunk):
     return fails, counts
 
 
+def check_scoring_paths(fails):
+    """C09 deterministic families: (1) a weighting model with a final() hook sees the GLOBAL document number of every hit,
+    whatever segment it is in; (2) collection statistics are per field: the same word in two fields must not share its
+    idf, whatever was searched before on the same searcher; (3) a boost on a compound with one clause multiplies."""
+    import tempfile as _tf
+    from whoosh import fields, query, scoring
+    from whoosh.filedb.filestore import RamStorage
+    ix = RamStorage().create_index(fields.Schema(k=fields.ID(stored=True), a=fields.TEXT, b=fields.TEXT))
+    docs = [("xx yy", "xx"), ("yy", "xx zz"), ("yy zz", "xx"), ("zz", "xx xx"), ("yy", "xx"), ("zz", "zz")]
+    w = ix.writer()
+    for i, (a, b) in enumerate(docs):
+        if i in (2, 4):
+            w.commit(merge=False)
+            w = ix.writer()
+        w.add_document(k=u"%d" % i, a=a, b=b)
+    w.commit(merge=False)
+
+    class FinalW(scoring.Frequency):
+        use_final = True
+
+        def final(self, searcher, docnum, score):
+            return score + 1000.0 * int(searcher.stored_fields(docnum)["k"])
+    with ix.searcher(weighting=FinalW()) as s:
+        if len(s.search(query.Term("b", u"xx"), limit=None)) != 5:
+            fails.append({"case": "exception/scoring-paths", "detail": "harness corpus not indexed as intended", "corpus": None})
+        for q in (query.Term("b", u"xx"), query.Or([query.Term("a", u"yy"), query.Term("b", u"zz")])):
+            for h in s.search(q, limit=None):
+                base = h.score - 1000.0 * int(h["k"])
+                if not (0 < base < 50):
+                    fails.append({"case": "C09-final-docnum", "detail": "weighting.final() was not given the hit's own document: hit k=%s of %r "
+                                  "scores %r (expected 1000*k + term score)" % (h["k"], q, h.score), "corpus": None})
+                    break
+    for wcls in (scoring.TF_IDF, scoring.BM25F):
+        def scores(s_, q):
+            return sorted((h["k"], round(h.score, 6)) for h in s_.search(q, limit=None))
+        with ix.searcher(weighting=wcls()) as s1:
+            first = scores(s1, query.Term("a", u"xx"))
+            second = scores(s1, query.Term("b", u"xx"))
+        with ix.searcher(weighting=wcls()) as s2:
+            second_fresh = scores(s2, query.Term("b", u"xx"))
+            first_after = scores(s2, query.Term("a", u"xx"))
+        if second != second_fresh or first != first_after:
+            fails.append({"case": "C09-idf-per-field", "detail": "%s: b:x scored after a:x on one searcher %r, on a fresh searcher %r; a:x %r vs %r "
+                          "(the word's statistics of one field leaked into the other)" % (wcls.__name__, second, second_fresh, first, first_after),
+                          "corpus": None})
+    with ix.searcher(weighting=scoring.Frequency()) as s:
+        base = dict((h["k"], h.score) for h in s.search(query.Term("b", u"xx"), limit=None))
+        for cls in (query.Or, query.And, query.DisjunctionMax):
+            got = dict((h["k"], h.score) for h in s.search(cls([query.Term("b", u"xx")], boost=3.0), limit=None))
+            if got != dict((k_, v * 3.0) for k_, v in base.items()):
+                fails.append({"case": "C09-single-clause-boost", "detail": "%s([b:x], boost=3) scores %r, b:x alone %r" % (cls.__name__, got, base),
+                              "corpus": None})
+
+
 def main():
+    if sys.argv[1] == "--deterministic":
+        fails = []
+        check_scoring_paths(fails)
+        want = sys.argv[2] if len(sys.argv) > 2 else None
+        hit = [f for f in fails if want is None or f["case"] == want]
+        for f in hit:
+            print("FAIL", f["case"], "|", f["detail"])
+        sys.exit(1 if hit else 0)
     if sys.argv[1] == "--corpus":
         corpus = json.loads(sys.argv[2])
         fails, counts = [], {"corpora": 0, "queries": 0}
@@ -421,6 +483,10 @@ def main():
     with multiprocessing.get_context("fork").Pool(jobs) as pool:
         outs = pool.map(run, chunks)
     fails = [f for fs, _ in outs for f in fs]
+    try:
+        check_scoring_paths(fails)
+    except Exception as e:
+        fails.append({"case": "exception/scoring-paths", "detail": "%s: %s | %s" % (type(e).__name__, e, traceback.format_exc()[-400:]), "corpus": None})
     counts = {"corpora": sum(c["corpora"] for _, c in outs), "queries": sum(c["queries"] for _, c in outs)}
     # de-duplicate by case
     seen, uniq = set(), []
